@@ -252,6 +252,7 @@ func run(c *driver.Ctx) {
 		}
 	}
 
+	probeEdgeKinds()
 	n := c.Pick(500, 50000)
 	for i := 0; i < n; i++ {
 		if !c.Take() {
@@ -397,7 +398,6 @@ func (m *monitor) runModule() {
 				sole = true
 				if frozenFlag(nd.v) {
 					works[ek] = true
-					worksEver[ek] = true
 				}
 			}
 		}
@@ -407,8 +407,7 @@ func (m *monitor) runModule() {
 	}
 	for _, nd := range R.nodes {
 		if nd.parent < 0 && isContainer(nd.v) && frozenFlag(nd.v) {
-			works[eGlobal] = true
-			worksEver[eGlobal] = true
+			works[globalOf(nd.label)] = true // "global@<file>": the freeze of that module's globals happened
 		}
 	}
 	if outcome != "ok" {
@@ -444,19 +443,43 @@ func (m *monitor) runModule() {
 		if !frontier {
 			continue
 		}
-		// the culprit is one of the edge kinds between the nearest frozen container (or the global)
-		// and this node; kinds seen working elsewhere are set aside
-		var ks, all []string
+		// The culprit is one of the edge kinds between the nearest frozen container (or the global)
+		// and this node. Kinds seen working in this module are set aside first, then (only to
+		// break ties) kinds seen working in the probe module.
+		var all []string
+		rootIdx := i
+		for R.nodes[rootIdx].parent >= 0 {
+			rootIdx = R.nodes[rootIdx].parent
+		}
 		for _, k := range chain {
+			if k == eGlobal {
+				k = globalOf(R.nodes[rootIdx].label)
+			}
 			if !contains(all, k) {
 				all = append(all, k)
 			}
-			if !works[k] && !worksEver[k] && !contains(ks, k) {
-				ks = append(ks, k)
-			}
 		}
+		minus := func(l []string, ex map[string]bool) []string {
+			var out []string
+			for _, k := range l {
+				if !ex[k] {
+					out = append(out, k)
+				}
+			}
+			return out
+		}
+		ks := minus(all, works)
 		if len(ks) == 0 {
 			ks = all
+		}
+		if len(ks) > 1 {
+			ever := map[string]bool{}
+			for _, k := range ks {
+				ever[k] = worksEver[strings.SplitN(k, "@", 2)[0]]
+			}
+			if k2 := minus(ks, ever); len(k2) > 0 {
+				ks = k2
+			}
 		}
 		suspects = append(suspects, suspect{i, ks})
 	}
@@ -469,7 +492,14 @@ func (m *monitor) runModule() {
 			}
 		}
 		best := ""
-		for _, k := range append([]string{eGlobal}, edgeKinds...) {
+		var order []string
+		for k := range count {
+			if strings.HasPrefix(k, eGlobal) {
+				order = append(order, k)
+			}
+		}
+		sort.Strings(order)
+		for _, k := range append(order, edgeKinds...) {
 			if count[k] > count[best] {
 				best = k
 			}
@@ -486,7 +516,7 @@ func (m *monitor) runModule() {
 			}
 		}
 		nd := R.nodes[first]
-		m.failf("C04 not-frozen "+best, "after the module returned (%s) the %s at %s is reachable from the globals but not frozen (%d such nodes explained by edge kind %s)", outcome, nd.v.Type(), R.path(first), len(suspects)-len(rest), best)
+		m.failf("C04 not-frozen "+strings.SplitN(best, "@", 2)[0], "after the module returned (%s) the %s at %s is reachable from the globals but not frozen (%d such nodes explained by edge kind %s)", outcome, nd.v.Type(), R.path(first), len(suspects)-len(rest), best)
 		suspects = rest
 	}
 	rootCauseReported := len(unfrozen) > 0
@@ -678,8 +708,62 @@ func (m *monitor) runModule() {
 	}
 }
 
-// edge kinds seen working at least once in this process (see works in runModule)
+// Edge kinds seen working in a fixed probe module executed once per process: for each kind, a
+// list that is reachable only through an edge of that kind ended up frozen. This never decides a
+// verdict; it only helps to name the culprit edge kind in "not-frozen" keys.
 var worksEver = map[string]bool{}
+
+const probeSrc = `
+def mk():
+    s = [1]
+    def f():
+        return s
+    return f
+p_free = mk()
+def p_default(a = [1]):
+    return a
+p_recv = [1].append
+p_tuple = ([1],)
+p_list = [[1]]
+p_dictval = {"a": [1]}
+p_dictkey = {mk(): 1}
+p_dictkey2 = {[1].append: 1}
+p_set = set([mk()])
+p_set2 = set([[1].append])
+p_struct = struct(a = [1])
+p_module = module("m", a = [1])
+`
+
+func probeEdgeKinds() {
+	env := newHostEnv()
+	var g starlark.StringDict
+	if p := sl.Safe(func() { g, _ = starlark.ExecFileOptions(sl.AllOptions(), &starlark.Thread{Name: "probe"}, "probe.star", probeSrc, env.pre) }); p != nil {
+		return
+	}
+	var roots []root
+	for _, n := range g.Keys() {
+		roots = append(roots, root{n, g[n]})
+	}
+	R := reach(roots, "")
+	for _, ek := range edgeKinds {
+		R2 := reach(roots, ek)
+		for _, nd := range R.nodes {
+			if isContainer(nd.v) && !R2.has(nd.v) && frozenFlag(nd.v) {
+				worksEver[ek] = true
+			}
+		}
+	}
+	for _, nd := range R.nodes {
+		if nd.parent < 0 && isContainer(nd.v) && frozenFlag(nd.v) {
+			worksEver[eGlobal] = true
+		}
+	}
+}
+
+// globalOf maps a root label "file:name" to the pseudo edge kind "global@file".
+func globalOf(rootLabel string) string {
+	return eGlobal + "@" + strings.SplitN(rootLabel, ":", 2)[0]
+}
 
 func contains(l []string, s string) bool {
 	for _, x := range l {
